@@ -19,7 +19,7 @@ CHECKS = {
  "C03": dict(
    technique="model-based property testing with a derived-referrers oracle (counter hook == referrers, DELETE verdict == referenced) over retarget/flush histories with a delete-everything epilogue",
    level="exploration",
-   text="Histories that create, retarget, delete and flush references (rapid + every history of length<=3/4 over a 22-step retarget alphabet) are followed by a generated epilogue that tries to delete every group and next-hop top-down and bottom-up. After every operation each reference counter (hook) must equal the number of installed referrers derived from the model state and every DELETE must be FAILED exactly when the model says the target is referenced. Key renamings include ids spanning the whole uint64 range (pairs further apart than 2^63).",
+   text="Histories that create, retarget, delete and flush references (rapid + every history of length<=3/4 over a 22-step retarget alphabet) are followed by a generated epilogue that tries to delete every group and next-hop top-down and bottom-up. After every operation each reference counter (hook) must equal the number of installed referrers derived from the model state and every DELETE must be FAILED exactly when the model says the target is referenced. Key renamings include ids spanning the whole uint64 range (pairs further apart than 2^63). At the rib level the last network instance may be created at runtime at a drawn step.",
    note="Trusted: reference model's derivation of referrers from installed entries; verif-tagged counter hook. Sampled beyond the exhaustive small scope.",
    design="DESIGN.md §4 C03"),
  "C16": dict(
@@ -73,7 +73,7 @@ CHECKS = {
  "C12": dict(
    technique="property-based testing with constructed invalid classes and structural protobuf mutation of valid operations, before/after state comparison and a twin-RIB panic screen; the thorough tier adds coverage-guided native fuzzing (go test -fuzz) of proto.Unmarshal-decoded operations with the same oracle inside the target",
    level="exploration",
-   text="A server pre-loaded with a generated RIB and a second idle session receives one message: every constructed invalid class, 1-3 structural mutations (undefined enum numbers, cleared sub-messages, duplicated list keys, invalid UTF-8, boundary integers, junk strings) of valid full-field operations, or a malformed Get/Flush. The operation is first applied to a twin RIB under recover (a panic there is a violation with the case), then sent through the server: exactly one in-band result or a clean RPC error on that session only; the idle session sees nothing and afterwards wins an election and programs an entry; rejected operations leave contents, held set and counters identical, accepted mutants change only their own key and keep counters and Get consistent. A mutant that is malformed by the model's static validity rules (zero/missing key or group, empty group, zero member index, label out of range, unknown group network instance, nil entry) must be rejected whatever else it carries - never programmed, never held; the constructed classes include the same defects on otherwise fully populated operations. Constructed classes include leaves only the schema constrains (metadata longer than 8 bytes, malformed addresses, label out of range); a long-bytes mutator and a static metadata rule cover the same for mutants. The zero-member-index class is repeated in wide groups (8-257 members).",
+   text="A server pre-loaded with a generated RIB and a second idle session receives one message: every constructed invalid class, 1-3 structural mutations (undefined enum numbers, cleared sub-messages, duplicated list keys, invalid UTF-8, boundary integers, junk strings) of valid full-field operations, or a malformed Get/Flush. The operation is first applied to a twin RIB under recover (a panic there is a violation with the case), then sent through the server: exactly one in-band result or a clean RPC error on that session only; the idle session sees nothing and afterwards wins an election and programs an entry; rejected operations leave contents, held set and counters identical, accepted mutants change only their own key and keep counters and Get consistent. A mutant that is malformed by the model's static validity rules (zero/missing key or group, empty group, zero member index, label out of range, unknown group network instance, nil entry) must be rejected whatever else it carries - never programmed, never held; the constructed classes include the same defects on otherwise fully populated operations. Constructed classes include leaves only the schema constrains (metadata longer than 8 bytes, malformed addresses, label out of range); a long-bytes mutator and a static metadata rule cover the same for mutants. The zero-member-index class is repeated in wide groups (8-257 members). Invalid classes include names that differ from an instance name only by surrounding blanks, control characters or letter case (operations, group instances, Get, Flush).",
    note="Trusted: classification of the constructed classes as invalid (from the property text); the in-process stream (delivers messages gRPC's codec would refuse). A crash of the test process is reported by the driver as a violation with the in-flight case.",
    design="DESIGN.md §4 C12"),
  "C10": dict(
@@ -85,25 +85,25 @@ CHECKS = {
  "C17": dict(
    technique="property-based differential testing of each chk helper against a direct specification of 'present' on a capturing testing.TB",
    level="exploration",
-   text="Generated result lists, Get responses, client errors and wanted items (70% absent by a one-field perturbation, all five entry kinds, every option combination) are given to each helper on a capturing testing.TB; a field-by-field specification written without cmp decides presence and both directions must agree; HasResultsCache is additionally compared with HasResult (cache-pass implies plain-pass, equality when lookup keys are unique) and documented test-author errors must be fatal. Instance names include names that extend one another (VRF-1, VRF-12) with near-miss wants whose name/key boundary is moved by one character. The prefix pools hold several spellings of one prefix.",
+   text="Generated result lists, Get responses, client errors and wanted items (70% absent by a one-field perturbation, all five entry kinds, every option combination) are given to each helper on a capturing testing.TB; a field-by-field specification written without cmp decides presence and both directions must agree; HasResultsCache is additionally compared with HasResult (cache-pass implies plain-pass, equality when lookup keys are unique) and documented test-author errors must be fatal. Instance names include names that extend one another (VRF-1, VRF-12) with near-miss wants whose name/key boundary is moved by one character. The prefix pools hold several spellings of one prefix. Reported labels include values that alias small labels modulo 2^32.",
    note="Trusted: the specification of presence transcribed from the helper documentation; one documented-ambiguous region (AllowUnimplemented vs details of other codes) is not asserted.",
    design="DESIGN.md §4 C17"),
  "C18": dict(
    technique="property-based testing of generated builder programs against an independent interpreter, observed through a recording stub GRIBIClient",
    level="exploration",
-   text="Programs of constructor/With*/Add* calls over the five entry builders and both encap-header builders, interleaved with AddEntry/ReplaceEntry/DeleteEntry, UpdateElectionID, StartSending and OpProto/EntryProto probes, run on a fluent client (elected-primary or all-primary) wired to a recording stub; builders keep being mutated after they were queued. An independent interpreter computes the expected protos, ids 1,2,3.., operation types and election stamps; probes are compared immediately, the request pointers received by the stub only at the very end so that aliasing of queued messages shows. Queue and election calls are made on a fresh Modify() handle, on the handle the previous call returned (chaining) or on a handle kept from the start; programs may restart the client (Stop + Start + StartSending: ids keep counting, the stamp stays the latest UpdateElectionID). String pools include valid values a normaliser would rewrite (host bits, upper-case or zero-padded hex, IPv4-mapped, surrounding blanks). A restart may re-specify the initial election id between Stop and Start.",
+   text="Programs of constructor/With*/Add* calls over the five entry builders and both encap-header builders, interleaved with AddEntry/ReplaceEntry/DeleteEntry, UpdateElectionID, StartSending and OpProto/EntryProto probes, run on a fluent client (elected-primary or all-primary) wired to a recording stub; builders keep being mutated after they were queued. An independent interpreter computes the expected protos, ids 1,2,3.., operation types and election stamps; probes are compared immediately, the request pointers received by the stub only at the very end so that aliasing of queued messages shows. Queue and election calls are made on a fresh Modify() handle, on the handle the previous call returned (chaining) or on a handle kept from the start; programs may restart the client (Stop + Start + StartSending: ids keep counting, the stamp stays the latest UpdateElectionID). String pools include valid values a normaliser would rewrite (host bits, upper-case or zero-padded hex, IPv4-mapped, surrounding blanks). A restart may re-specify the initial election id between Stop and Start. Queue calls may carry 255-4097 entries.",
    note="Trusted: the interpreter's reading of each setter (last call wins, Add* appends); header builders are not modified after AddEncapHeader; the stub stands in for gRPC (no serialisation).",
    design="DESIGN.md §4 C18"),
  "C13": dict(
    technique="model-based property testing of the client library against a scripted stub server with adversarial response schedules and a concurrent sampler",
    level="exploration",
-   text="The client is driven through a scripted stub GRIBIClient: generated request batches and server schedules (results reordered across ids, grouped into responses, RIB and FIB acks split, election/parameter responses interleaved; violating servers with unknown ids, duplicate terminal results, multi-field responses). At every probe, after the receiver has provably processed everything sent (Recv-call synchronisation), Pending/Results must match the client model id by id (exactly one of pending / terminal result, details carry the operation's type and key, a RIB ack never completes an operation in FIB-ack mode) and AwaitConverged must return nil iff the model is converged, and a *ClientErr after a violating schedule; a concurrent sampler checks that no operation is ever lost. In addition an operation id is handed in a second time while unanswered (inside one request or in a later one) and every distinct id is answered once: AwaitConverged must not return nil. Requests may carry the client's election id together with operations (the election is then pending again).",
+   text="The client is driven through a scripted stub GRIBIClient: generated request batches and server schedules (results reordered across ids, grouped into responses, RIB and FIB acks split, election/parameter responses interleaved; violating servers with unknown ids, duplicate terminal results, multi-field responses). At every probe, after the receiver has provably processed everything sent (Recv-call synchronisation), Pending/Results must match the client model id by id (exactly one of pending / terminal result, details carry the operation's type and key, a RIB ack never completes an operation in FIB-ack mode) and AwaitConverged must return nil iff the model is converged, and a *ClientErr after a violating schedule; a concurrent sampler checks that no operation is ever lost. In addition an operation id is handed in a second time while unanswered (inside one request or in a later one) and every distinct id is answered once: AwaitConverged must not return nil. Requests may carry the client's election id together with operations (the election is then pending again). A second-session scope re-uses the client after the first session ended (cleanly or with an error) and Reset, with operations queued before or after Connect.",
    note="Trusted: the client model; Recv-call counting as the processing barrier; BusyLoopDelay set to 1 ms. One known finding is tolerated by signature (RIB_PROGRAMMED for a non-pending id in FIB-ack mode is not reported).",
    design="DESIGN.md §4 C13"),
  "C14": dict(
    technique="fault enumeration: every fault index x side x status class x burst size x epilogue on a scripted stub stream, with watchdog and goroutine-dump census oracles",
    level="fault_enumeration",
-   text="A scripted exchange is cut by one stream fault at every message index on the send side (failing Send, or a Send stalled by flow control that then fails) and on the receive side, for EOF/Unavailable/Internal/Canceled, while the application queues a burst of 0..12 further requests; then Close, or Reset + new stub + Connect + a further exchange. The full product over small parameters is enumerated and larger ones are drawn. Done must fire, every Q must return, the error must be recorded, AwaitConverged must return a *ClientErr (never nil), Close/Reset must return, no goroutine with client frames may remain, and after Reset+Connect the client must be empty, the new stream must carry exactly a fresh client's messages and a further exchange must converge. 0-4 application goroutines may already be inside AwaitConverged when the stream breaks, the burst may be queued by another goroutine while the stream breaks, and a repeated contention scenario (several waiters, bursts of 7-12) looks for lock cycles between queueing calls, waiters and the client's sender/receiver. A many-outstanding scope uses requests of 255-8193 operations each, so that thousands are unanswered when the stream breaks. A linger scope leaves the re-connected session alone for 1-11 s (thorough 61 s) of real time before it is used again.",
+   text="A scripted exchange is cut by one stream fault at every message index on the send side (failing Send, or a Send stalled by flow control that then fails) and on the receive side, for EOF/Unavailable/Internal/Canceled, while the application queues a burst of 0..12 further requests; then Close, or Reset + new stub + Connect + a further exchange. The full product over small parameters is enumerated and larger ones are drawn. Done must fire, every Q must return, the error must be recorded, AwaitConverged must return a *ClientErr (never nil), Close/Reset must return, no goroutine with client frames may remain, and after Reset+Connect the client must be empty, the new stream must carry exactly a fresh client's messages and a further exchange must converge. 0-4 application goroutines may already be inside AwaitConverged when the stream breaks, the burst may be queued by another goroutine while the stream breaks, and a repeated contention scenario (several waiters, bursts of 7-12) looks for lock cycles between queueing calls, waiters and the client's sender/receiver. A many-outstanding scope uses requests of 255-8193 operations each, so that thousands are unanswered when the stream breaks. A linger scope leaves the re-connected session alone for 1-11 s (thorough 61 s) of real time before it is used again. After Reset the request for the new session may be queued before Connect.",
    note="Trusted: the stub's emulation of the gRPC client-stream contract; goroutine census by stack frames; 10 s watchdog (a hang is reported only with the blocked client frames in the dump).",
    design="DESIGN.md §4 C14"),
  "C11": dict(
